@@ -2,6 +2,7 @@ pub mod c06;
 pub mod c07;
 pub mod c10;
 pub mod c13;
+pub mod c14;
 pub mod c19;
 pub mod c20;
 pub mod table;
@@ -41,6 +42,7 @@ pub fn run(id: &str, tier: Tier) -> Option<Report> {
             rep
         }
         "C13" => c13::run(tier),
+        "C14" => c14::run(tier),
         "C19" => {
             let mut rep = Report::new("C19", "model_checking", tier);
             c19::run(tier, &mut rep);
@@ -62,6 +64,7 @@ pub fn replay(id: &str, v: &serde_json::Value) -> i32 {
         "C09" => table::replay_table(v, false, true),
         "C10" => c10::replay(v),
         "C13" => c13::replay(v),
+        "C14" => c14::replay(v),
         "C19" => c19::replay(v),
         "C20" => c20::replay(v),
         _ => {
